@@ -76,4 +76,11 @@ def RangesFrom : Nat → List Col → Prop
   | _, [] => True
   | lo, e :: es => lo < e.min ∧ e.min ≤ e.max ∧ RangesFrom e.max es
 
+/-- two column ranges do not overlap -/
+def Disj (a b : Col) : Prop := a.max < b.min ∨ b.max < a.min
+
+/-- what the column setters leave in memory (`flatCols` appends new columns at the end, so the list is
+*not* sorted): well-formed ranges inside the sheet, pairwise non-overlapping, in any order -/
+def Wf (l : List Col) : Prop := (∀ e ∈ l, 1 ≤ e.min ∧ e.min ≤ e.max) ∧ l.Pairwise Disj
+
 end XlModel.SaveCols
